@@ -697,7 +697,7 @@ func c01Run_(c *Case) {
 func init() {
 	register(&Prop{
 		ID: "C01", Level: "exploration",
-		Rule:          "outcome classification only (no model): every run must end as ok / syntax / runtime / json; a recovered panic, a control-flow sentinel or any other error value, the death of the worker process, and for the binary a signal, a Go trace on stderr or a non-zero status without diagnostic are violations. Enumerated: {next, exit, break, continue, return, return v} x 16 placements (BEGIN, END, BEGINFILE, ENDFILE, pattern body, pattern expression via a match block, function called from each of the five rule kinds, match block in BEGIN / pattern rule / function, -r selector via a match block alone and after a plain selector) x {plain, while, for, for-in, nested for-in, nested if} x 4 inputs, all also through the binary; 28 nestable constructs nested 1000 / 8000 / as deep as 64 KiB allows, and 6 of them inside a self-recursive function (recursion x nesting); 22 cyclic / shared shapes (built twice) x 62 operations that walk a value (comparison, contains, sort, match, iteration, rendering, arithmetic, member chains, stores into itself) and 15 histories that shrink an array through one of two references and then walk it through the other; 25 store forms (plain, nested, through fresh names, through $, with ++ / += / --) x 18 keys of every kind (booleans, null, unset, containers, regex, function, fractions, negative, huge) on bases of every kind; every one-byte input and 50 short prefixes of byte-order marks, multi-byte sequences and JSON tokens; the six signals raised from every loop-header position / condition / print list through a match block, with and without an enclosing loop, at rule level and inside functions; method calls on every receiver kind whose argument reassigns the receiver's own location to a value of another kind before the call happens (24 call forms x 8 receivers x 9 new values); 43 statement forms in which one part reassigns a variable that another part of the same statement is using (index base, store target, argument list, loop iterable, match subject, operands) on 6 initial values; 10 programs that use 60-300 distinct patterns / formats / keys in one run, and array patterns that match without binding a name; printf with every width 1-12 in three padding styles on strings whose byte and character counts differ; all also through the binary. Sampled: whole-grammar random programs in random layouts, token-level mutations, byte-level mutations of these and of the repository's fuzz corpus, raw bytes; hostile inputs (JSONL, truncated, stray closers, nesting to 20000, garbage, empty); generated / mutated / garbage selectors; EvalExpression on JSON-typed roots; fuzzing flag on and off; step budget 50000 (budget-exhausted runs are inconclusive). Non-trivial = at least 3 interpreter steps executed (hook) or a syntax error in a text of >= 10 bytes; distinct by hash of program+selectors+input. Every sixth binary case (program up to 3 000 bytes) is also run with -dbg-ast and with -dbg-lex: status 0, or 1 with the syntax error, never a Go trace; -dbg-ast succeeds exactly when the text is no syntax error.",
+		Rule:          "outcome classification only (no model): every run must end as ok / syntax / runtime / json; a recovered panic, a control-flow sentinel or any other error value, the death of the worker process, and for the binary a signal, a Go trace on stderr or a non-zero status without diagnostic are violations. Enumerated: {next, exit, break, continue, return, return v} x 16 placements (BEGIN, END, BEGINFILE, ENDFILE, pattern body, pattern expression via a match block, function called from each of the five rule kinds, match block in BEGIN / pattern rule / function, -r selector via a match block alone and after a plain selector) x {plain, while, for, for-in, nested for-in, nested if} x 4 inputs, all also through the binary; 28 nestable constructs nested 1000 / 8000 / as deep as 64 KiB allows, and 6 of them inside a self-recursive function (recursion x nesting); 22 cyclic / shared shapes (built twice) x 62 operations that walk a value (comparison, contains, sort, match, iteration, rendering, arithmetic, member chains, stores into itself) and 15 histories that shrink an array through one of two references and then walk it through the other; 25 store forms (plain, nested, through fresh names, through $, with ++ / += / --) x 18 keys of every kind (booleans, null, unset, containers, regex, function, fractions, negative, huge) on bases of every kind; every one-byte input and 50 short prefixes of byte-order marks, multi-byte sequences and JSON tokens; the six signals raised from every loop-header position / condition / print list through a match block, with and without an enclosing loop, at rule level and inside functions; method calls on every receiver kind whose argument reassigns the receiver's own location to a value of another kind before the call happens (24 call forms x 8 receivers x 9 new values); 43 statement forms in which one part reassigns a variable that another part of the same statement is using (index base, store target, argument list, loop iterable, match subject, operands) on 6 initial values; 10 programs that use 60-300 distinct patterns / formats / keys in one run, and array patterns that match without binding a name; printf with every width 1-12 in three padding styles on strings whose byte and character counts differ; all also through the binary. Sampled: whole-grammar random programs in random layouts, token-level mutations, byte-level mutations of these and of the repository's fuzz corpus, raw bytes; hostile inputs (JSONL, truncated, stray closers, nesting to 20000, garbage, empty); generated / mutated / garbage selectors; EvalExpression on JSON-typed roots; fuzzing flag on and off; step budget 50000 (budget-exhausted runs are inconclusive). Non-trivial = at least 3 interpreter steps executed (hook) or a syntax error in a text of >= 10 bytes; distinct by hash of program+selectors+input. Every sixth binary case (program up to 3 000 bytes) is also run with -dbg-ast and with -dbg-lex: status 0, or 1 with the syntax error, never a Go trace; -dbg-ast succeeds exactly when the text is no syntax error. 36 printf format tails ending inside a directive x 3 prefixes, as literals and in variables.",
 		NumCases:      c01Cases,
 		Run:           c01Run_,
 		MinConclusive: func(tier string) int { return 20000 },
